@@ -108,6 +108,10 @@ static int validate_checksums(zckCtx *zck, zck_log_type bad_checksums) {
         int valid_chunk = -1;
         if(truncated) {
             idx->valid = -1;
+            /* Keep the stream aligned with the index for the chunks that follow */
+            if(!seek_data(zck, zck->data_offset + idx->start + idx->comp_length,
+                          SEEK_SET))
+                return 0;
         } else {
             valid_chunk = validate_chunk(idx, bad_checksums);
             if(!valid_chunk)
